@@ -132,6 +132,8 @@ class Result:
     self.twins_ok = 0
     self.twins = 0
     self.cancelled = 0
+    self.confirmed = {}
+    self.empty = {}
 
 
 def run_jobs(pid, tier, jobs, cfg_dir, seed=0, extra_env=None, log=print):
@@ -140,7 +142,7 @@ def run_jobs(pid, tier, jobs, cfg_dir, seed=0, extra_env=None, log=print):
   rec_dir = env.scratch_dir("verif_rec_")
   tasks = []
   for job in jobs:
-    tasks.append((job, job.shards, 0, True, None))
+    tasks.append((job, 1, 0, True, None))  # the twin runs unsharded
     order = list(range(job.shards))
     rot = seed % max(1, job.shards)
     order = order[rot:] + order[:rot]
@@ -208,7 +210,14 @@ def run_jobs(pid, tier, jobs, cfg_dir, seed=0, extra_env=None, log=print):
                 "%s: counterexample did not reproduce untraced: %s -> %s" % (
                     label, m["message"], rp))
       elif states and all(s == "CONFIRMED" for s in states):
-        pass
+        res.confirmed[job.name] = res.confirmed.get(job.name, 0) + 1
+      elif states == ["PRE_UNSAT"]:
+        # The shard constraint together with the (fork-free, linear)
+        # preconditions is unsatisfiable: an empty shard.  Accepted only
+        # because the unsharded reachability twin of the same job must be
+        # refuted and at least one shard of the job must confirm (checked by
+        # the caller); counted separately in the evidence.
+        res.empty[job.name] = res.empty.get(job.name, 0) + 1
       else:
         res.inconclusive.append("%s: %s" % (label, states or "no verdict"))
       log("  %-40s %-16s %6.1fs paths=%d" % (
